@@ -177,9 +177,19 @@ def _(c):
     c.modifies()
 
 
+def dims_one(b, p, which):
+    """all exponents zero except the named ones, which are arbitrary fractions (possibly unreduced, negative denominator)"""
+    fields = {n: (b.obj(FR, num=b.int(f"{p}{n}n"), den=b.int(f"{p}{n}d")) if n in which else b.obj(FR, num=0, den=1)) for n in NAMES}
+    return b.obj(DIM, nodim=b.bool(p + "nodim"), **fields)
+
+
 @contract(f"{DIM}.__eq__", ["C03", "C04"])
 def _(c):
+    c.chunk = 1
     c.scenario("dimensions", lambda b: dict(args=[dims(b, "a"), dims(b, "b")]))
+    # the same statement with one / two free exponents (decided quickly whatever the body does with the others)
+    c.scenario("one-free-exponent", lambda b: dict(args=[dims_one(b, "a", ["m"]), dims_one(b, "b", ["m"])]))
+    c.scenario("two-free-exponents", lambda b: dict(args=[dims_one(b, "a", ["g", "s"]), dims_one(b, "b", ["g", "s"])]))
     c.requires("dims_ok(self) and dims_ok(other) and all([small(getattr(self, n), getattr(other, n)) for n in %r])" % NAMES)
     c.ensures(f"result == all([getattr(self, n).num * getattr(other, n).den == getattr(other, n).num * getattr(self, n).den for n in {NAMES}])", "equal-iff-all-components-equal")
     c.no_raise()
